@@ -128,6 +128,9 @@ def run_case(ctx, case):
         data = data + off
         coords = {d_: np.arange(n_) * 1.5 for d_, n_ in zip(ldims, lead)} if lead and rng.random() < 0.5 else None
         da = U.UxDataArray(data.copy(), dims=ldims + [dim], coords=coords, uxgrid=gs, name="v")
+        if case["dseed"] % 4 == 1:
+            da = da.chunk({dim: max(1, ne // 2)})  # dask-backed source data
+            ctx.observe("dask_backed_source_data")
         for remap_to in DESTS:
             P_dst = positions(gd_twin, remap_to)
             nd = len(P_dst)
